@@ -45,6 +45,11 @@ STARTS = {
     "r=X": [{"op": "store", "pid": "r", "c": X}],
     "p=Y": [{"op": "store", "pid": "p", "c": Y}],
 }
+NOOBJ_STARTS = {"p->X,no-object": [{"op": "tag", "pid": "p", "cid": {"of": X}}],
+                "p->X,r->X,no-object": [{"op": "tag", "pid": "p", "cid": {"of": X}}, {"op": "tag", "pid": "r", "cid": {"of": X}}]}
+NOOBJ_MENU = [{"op": "delete", "pid": "p"}, {"op": "tag", "pid": "q", "cid": {"of": X}}, {"op": "store", "pid": "q", "c": X},
+              {"op": "store", "pid": "p", "c": X}, {"op": "tag", "pid": "p", "cid": {"of": X}}, {"op": "delete", "pid": "q"},
+              {"op": "store", "pid": None, "c": X}]
 VAL_CALLS = [{"op": "store", "pid": "p", "c": X, "cks": "right"}, {"op": "store", "pid": "q", "c": X, "size": "right"},
              {"op": "store", "pid": "p", "c": X, "cks": "right", "cks_algo": "md5", "size": "right"}, {"op": "store", "pid": "q", "c": X},
              {"op": "store", "pid": None, "c": X}]
@@ -180,6 +185,18 @@ def enumerate_cases(tier):
                     for first in (0, 1):
                         yield dict(BASE, start_name=sname, start=STARTS[sname], calls=[MENU[a], MENU[b]], mode="cd", max_preempt=3,
                                    firsts=[first], family="conflict-directed")
+    # 'references without object': a pid was tagged to a cid BEFORE the upload (documented use) - both reference files exist, the
+    # object does not; delete_object / tag_object / store_object then take their rarely travelled branches, next to each other
+    for a, b in itertools.combinations_with_replacement(NOOBJ_MENU, 2):
+        if conflicting(a, b):
+            for sname, start in NOOBJ_STARTS.items():
+                if tier == "quick":
+                    yield dict(BASE, start_name=sname, start=start, calls=[a, b], mode="enum", max_preempt=1,
+                               family="references-without-object")
+                else:
+                    for first in (0, 1):
+                        yield dict(BASE, start_name=sname, start=start, calls=[a, b], mode="cd", max_preempt=3, firsts=[first],
+                                   family="references-without-object")
     # quick tier: the six most contended pairs already get every schedule with <=2 preemptions
     DEEP = {("p=X", 2, 6), ("r=X", 4, 6), ("empty", 0, 1), ("p=X,q=X", 6, 7), ("p=X", 5, 6), ("p=X", 0, 6)}
     for sname in STARTS:
